@@ -185,12 +185,29 @@ def gen_cases(tier, rng):
     for i, c in enumerate(base):
         if c["kind"] == "rand" and i % 8 == 0 and "labmap" not in c:
             yield dict(c, kind="obj-rand", _lab="obj")
+    # UNIT level (flavour J): _meek_rule1.._meek_rule4 called directly, every PDAG(n) n<=4 (cyclic directed layers included) x
+    # every ordered pair, and random 5-7 node PDAGs on their undirected edges; expected = rule k of the proved model
+    for n in range(2, 5):
+        for g in gr.enum_pdag(n, acyclic=False):
+            if g["U"]:
+                yield {"kind": "unit%d" % n, "g": g, "mode": 3, "pairs": [[a, b] for a in g["V"] for b in g["V"] if a != b]}
+    for i in range(300 if tier == "quick" else 3000):
+        n = rng.randint(5, 7)
+        g = gr.random_kinds_graph(rng, n, gr.PDAG_KINDS, p_edge=rng.choice([0.5, 0.7, 0.9]))
+        vs = list(g["V"])
+        rng.shuffle(vs)
+        g = dict(g, V=vs)
+        prs = [[a, b] for a, b in g["U"]] + [[b, a] for a, b in g["U"]]
+        if prs:
+            yield {"kind": "unit-rand", "g": g, "mode": 3, "pairs": prs}
 
 
 def encode(case):
     g = dict(case["g"], V=gr.ordered(case, case["g"]["V"], "V"))
     if case["mode"] == 2:
         return [2, gr.enc(g), gr.enc(case["dag"])]
+    if case["mode"] == 3:
+        return [3, gr.enc(g), case["pairs"]]
     return [case["mode"], gr.enc(g)]
 
 
@@ -199,6 +216,8 @@ def _pairs(v):
 
 
 def decode(case, v):
+    if case["mode"] == 3:
+        return {"unit": [[bool(x) for x in row] for row in v], "D": [], "U": [], "has_ext": False}
     out = {"D": _pairs(v[0]), "U": _pairs(v[1])}
     if case["mode"] == 0:
         out["has_ext"] = bool(v[2])
@@ -211,8 +230,34 @@ def decode(case, v):
     return out
 
 
+def run_unit(case):
+    from pywhy_graphs.algorithms import pag as pagmod
+    rules = [pagmod._meek_rule1, pagmod._meek_rule2, pagmod._meek_rule3, pagmod._meek_rule4]
+    g = case["g"]
+    P0, lab, inv = gr.to_cpdag(g, case)
+    base = gr.from_mixed(P0, inv)
+    und = {tuple(sorted(e)) for e in g["U"]}
+    out, graph_ok = [], True
+    for i, j in case["pairs"]:
+        row = []
+        for rule in rules:
+            Q = P0.copy() if tuple(sorted((i, j))) in und else P0
+            fired = bool(rule(Q, lab(i), lab(j)))
+            row.append(fired)
+            h = gr.from_mixed(Q, inv)
+            if fired:
+                graph_ok = graph_ok and h["D"] == sorted(base["D"] + [[i, j]]) and h["V"] == base["V"] \
+                    and h["U"] == [e for e in base["U"] if e != sorted((i, j))]
+            else:
+                graph_ok = graph_ok and h == base
+        out.append(row)
+    return {"unit": out, "graph_ok": graph_ok}
+
+
 def run_impl(case):
     import itertools
+    if case["mode"] == 3:
+        return run_unit(case)
     from pywhy_graphs.algorithms.pag import _apply_meek_rules
     lm = case.get("labmap")
     rl = (lambda g: gr.relabel(g, lambda v: lm[v])) if lm else (lambda g: g)
@@ -252,6 +297,12 @@ def run_impl(case):
 def compare(case, impl, model):
     if "exc" in impl:
         return "exception:" + impl["exc"]
+    if case["mode"] == 3:
+        for ri, rm in zip(impl["unit"], model["unit"]):
+            for k in range(4):
+                if ri[k] != rm[k]:
+                    return "unit:_meek_rule%d:%s" % (k + 1, "fires-where-the-proved-rule-does-not" if ri[k] else "misses")
+        return None if impl["graph_ok"] else "unit:result-graph"
     g = case["g"]
     D0 = {tuple(e) for e in g["D"]}
     U0 = {tuple(sorted(e)) for e in g["U"]}
@@ -282,15 +333,26 @@ def compare(case, impl, model):
 
 
 def nontrivial(case, model):
+    if case["mode"] == 3:
+        return any(any(r) for r in model["unit"])
     return len(model["D"]) > len(case["g"]["D"])
 
 
 def key(case):
-    return (gr.canon(case["g"]), case.get("rep"), gr.canon(case["g0"]) if "g0" in case else None, case.get("marks"),
+    return (gr.canon(case["g"]), case["mode"] == 3, case.get("rep"), gr.canon(case["g0"]) if "g0" in case else None, case.get("marks"),
             tuple(case["labmap"]) if "labmap" in case else None, case.get("_lab"))
 
 
 def shrink(case):
+    if case["mode"] == 3:
+        for pr in case["pairs"]:
+            if len(case["pairs"]) > 1:
+                yield dict(case, pairs=[pr])
+        for h in gr.shrink_graph(case["g"]):
+            prs = [pr for pr in case["pairs"] if pr[0] in h["V"] and pr[1] in h["V"]]
+            if prs:
+                yield dict(case, g=h, pairs=prs)
+        return
     if "rep" in case:
         for h in gr.shrink_graph(case["g0"]):
             if sorted(h["V"]) == sorted(case["g"]["V"]):
